@@ -48,7 +48,7 @@ void htp_connp_req_close(htp_connp_t *connp, const htp_time_t *timestamp) {
     if (connp == NULL) return;
     
     // Update internal flags
-    if (connp->in_status != HTP_STREAM_ERROR)
+    if ((connp->in_status != HTP_STREAM_ERROR) && (connp->in_status != HTP_STREAM_STOP))
         connp->in_status = HTP_STREAM_CLOSED;
 
     // Call the parsers one last time, which will allow them
@@ -63,9 +63,9 @@ void htp_connp_close(htp_connp_t *connp, const htp_time_t *timestamp) {
     htp_conn_close(connp->conn, timestamp);
 
     // Update internal flags
-    if (connp->in_status != HTP_STREAM_ERROR)
+    if ((connp->in_status != HTP_STREAM_ERROR) && (connp->in_status != HTP_STREAM_STOP))
         connp->in_status = HTP_STREAM_CLOSED;
-    if (connp->out_status != HTP_STREAM_ERROR)
+    if ((connp->out_status != HTP_STREAM_ERROR) && (connp->out_status != HTP_STREAM_STOP))
         connp->out_status = HTP_STREAM_CLOSED;
 
     // Call the parsers one last time, which will allow them
